@@ -36,9 +36,13 @@ Definition spec_langid_prefix (toks : list bytes) : option (langid * list bytes)
 
 (* the whole string is an identifier iff nothing is left over *)
 Definition spec_langid (toks : list bytes) : option langid :=
-  match spec_langid_prefix toks with
-  | Some (v, []) => Some v
-  | _ => None
+  match toks with
+  | [] => None
+  | _ :: _ =>
+    match spec_langid_prefix toks with
+    | Some (v, []) => Some v
+    | _ => None
+    end
   end.
 Definition spec_langid_err (toks : list bytes) : perr :=
   match toks with
